@@ -26,13 +26,16 @@ Q(q) == q \in Quirks
 -----------------------------------------------------------------------------
 (* character layer: classes q = '"', b = '\', c = any other character, plus *)
 (* the structural symbols of the query that may follow a literal            *)
-Chars == {"q", "b", "c"}
+Chars == {"q", "b", "c", "n"}     \* n = a digit
 Values == UNION {[1..k -> Chars] : k \in 0..MaxValueLen}
 
 RECURSIVE Escape(_)
 Escape(v) == IF v = <<>> THEN <<>>
              ELSE (IF Head(v) \in {"q", "b"} THEN <<"b", Head(v)>> ELSE <<Head(v)>>) \o Escape(Tail(v))
 Quote(v) == <<"q">> \o Escape(v) \o <<"q">>
+\* Condition.String leaves a value unquoted iff it is a plain number (isNumberRegex); then it is one bare token
+IsNumber(v) == v # <<>> /\ \A i \in DOMAIN v : v[i] = "n"
+FormatValue(v) == IF IsNumber(v) THEN v ELSE Quote(v)
 
 \* strconv.Unquote on the content between the quotes (nil result = syntax error -> the raw content is used)
 RECURSIVE Unesc(_)
@@ -63,6 +66,11 @@ Lex(text, i) ==
        THEN LET j == StringEnd(text, i) IN
             IF j = 0 THEN <<[k |-> "ERROR"]>>
             ELSE <<[k |-> "STR", v |-> Unquote(SubSeq(text, i + 1, j - 1))]>> \o Lex(text, j + 1)
+       ELSE IF text[i] = "n"      \* a bare number token: the maximal run of digits
+       THEN LET RECURSIVE RunEnd(_)
+                RunEnd(j) == IF j + 1 <= Len(text) /\ text[j + 1] = "n" THEN RunEnd(j + 1) ELSE j
+                e == RunEnd(i)
+            IN <<[k |-> "STR", v |-> SubSeq(text, i, e)]>> \o Lex(text, e + 1)
        ELSE <<[k |-> text[i]]>> \o Lex(text, i + 1)
 
 Str(v) == [k |-> "STR", v |-> v]
@@ -71,6 +79,8 @@ Sym(s) == [k |-> s]
 \* a value substituted with the engine's escaping in front of more query text
 NoInject(v, w) == Lex(Quote(v) \o <<"OR">> \o Quote(w), 1) = <<Str(v), Sym("OR"), Str(w)>>
 LiteralOK(v)   == Lex(Quote(v), 1) = <<Str(v)>>
+\* the formatter's own choice between bare and quoted form reads back as the value, also in front of more text
+FormatOK(v, w) == Lex(FormatValue(v) \o <<"OR">> \o FormatValue(w), 1) = <<Str(v), Sym("OR"), Str(w)>>
 
 -----------------------------------------------------------------------------
 (* tree layer *)
@@ -138,5 +148,5 @@ QNext == UNCHANGED qvars
 \* what the parser returns (a simplified tree) is a fixed point of format/parse
 BuiltOK   == kind = "tree" => Simplify(Parse(Stringify(tree))) = Simplify(tree)
 RoundTrip == kind = "tree" => LET s == Simplify(tree) IN Simplify(Parse(Stringify(s))) = s
-ValueOK   == kind = "value" => LiteralOK(v) /\ NoInject(v, w)
+ValueOK   == kind = "value" => LiteralOK(v) /\ NoInject(v, w) /\ FormatOK(v, w)
 =============================================================================
